@@ -321,7 +321,13 @@ def do_replay(prop, path):
         doc = json.load(f)
     mod = load_check(prop)
     _warm(mod)
-    res = mod.run_one(doc["seed"], doc.get("tier", "quick"), replay=doc, lenient=False)
+    try:
+        res = mod.run_one(doc["seed"], doc.get("tier", "quick"), replay=doc, lenient=False)
+    except S.ReplayDiverged as e:
+        # the code under test no longer takes the recorded path (it was changed since the recording): follow the
+        # recorded schedule as far as it applies, then the default policy, and judge what happens
+        print(f"recorded schedule no longer applies ({e}); re-running it leniently")
+        res = mod.run_one(doc["seed"], doc.get("tier", "quick"), replay=doc, lenient=True)
     want = doc.get("violation")
     vs = res.get("violations") or ([{"vio": res["vio"]}] if res.get("vio") else [])
     for v in vs:
